@@ -5,12 +5,13 @@
      subsample g Y X r   stratified_subsampling(Y, X, r, numba_unique(X)[0]): the two returned arrays
      g : nat -> Z        garbage oracle = what position p of the freshly allocated index buffer yields when it
                          is used without having been written ("prior allocator history")
-     r : Q               exact value of the float32 ratio (see the exactness remark in MI/Subsample.v)
+     r : Q               exact value of the float32 ratio (float computations = exact floors: C04_float_* below)
      Error _             a slice write outside the buffer or a row index outside [0, n)
    X is the stratifying ("target") vector, Y the other one; both have the same length (the code's
    precondition, as in C01). *)
-From Coq Require Import List Arith ZArith QArith Bool Sorted.
-From Outrank Require Import MI.Subsample MI.SubProofs.
+From Coq Require Import List Arith ZArith QArith Bool Sorted Reals Qreals.
+From Flocq Require Import Core.
+From Outrank Require Import MI.Subsample MI.SubProofs MI.SubFloat.
 Import ListNotations.
 Local Close Scope Q_scope.
 
@@ -117,6 +118,47 @@ Theorem C04_prefix_unsafe : exists (g : nat -> Z) Y X r c,
   length Y = length X /\ entry_old g Y X r c = Error IndexOutOfRange.
 Proof. exact prefix_unsafe. Qed.
 
+(* --- the float computations of the code equal the exact ones of the model (Flocq; over R, so these four
+   theorems — and only these — depend on the standard-library Reals axioms) ---------------------------------
+   binary32 = generic_format radix2 (FLT_exp (-149) 24), binary64 = FLT_exp (-1074) 53, round to nearest even.
+   Trusted: numba evaluates float32 * int64 as a binary64 multiplication and int / int as a binary64 division,
+   then truncates. *)
+Theorem C04_float_product_exact : forall (r : R) (n : Z),
+  generic_format radix2 (FLT_exp (-149) 24) r -> (0 < r < 1)%R -> (0 <= n < 2 ^ 29)%Z ->
+  generic_format radix2 (FLT_exp (-1074) 53) (r * IZR n) /\
+  round radix2 (FLT_exp (-1074) 53) ZnearestE (r * IZR n) = (r * IZR n)%R /\
+  Ztrunc (round radix2 (FLT_exp (-1074) 53) ZnearestE (r * IZR n)) = Zfloor (r * IZR n).
+Proof. exact product_exact. Qed.
+
+Theorem C04_float_quotient_floor : forall a b : Z,
+  (0 <= a < 2 ^ 29)%Z -> (1 <= b < 2 ^ 29)%Z ->
+  Zfloor (round radix2 (FLT_exp (-1074) 53) ZnearestE (IZR a / IZR b)) = (a / b)%Z /\
+  Ztrunc (round radix2 (FLT_exp (-1074) 53) ZnearestE (IZR a / IZR b)) = (a / b)%Z.
+Proof. exact quotient_floor. Qed.
+
+(* int(approximation_factor * all_events) = the model's final_space_size (and it is <= n) *)
+Theorem C04_float_final_space_size : forall (q : Q) (n : nat),
+  generic_format radix2 (FLT_exp (-149) 24) (Q2R q) -> (0 < Q2R q < 1)%R -> (Z.of_nat n < 2 ^ 29)%Z ->
+  Z.of_nat (final_space_size q n) =
+    Ztrunc (round radix2 (FLT_exp (-1074) 53) ZnearestE (Q2R q * IZR (Z.of_nat n))) /\
+  (Z.of_nat (final_space_size q n) <= Z.of_nat n)%Z.
+Proof. exact final_space_size_float. Qed.
+
+(* the quota the code computes in floats = the model's exact quota, for n < 2^29 *)
+Theorem C04_float_quota : forall (X : list Z) (q : Q),
+  X <> [] -> (Z.of_nat (length X) < 2 ^ 29)%Z ->
+  generic_format radix2 (FLT_exp (-149) 24) (Q2R q) -> (0 < Q2R q < 1)%R ->
+  Z.of_nat (quota X q) =
+  Ztrunc (round radix2 (FLT_exp (-1074) 53) ZnearestE
+            (IZR (Ztrunc (round radix2 (FLT_exp (-1074) 53) ZnearestE (Q2R q * IZR (Z.of_nat (length X)))))
+             / IZR (Z.of_nat (length (f_values X))))).
+Proof. exact quota_float. Qed.
+
+(* non-vacuity: np.float32(0.7) = 11744051 * 2^-24 is a binary32 number in (0,1) *)
+Example C04_ex_float32 :
+  generic_format radix2 (FLT_exp (-149) 24) (Q2R (11744051 # 16777216)) /\ (0 < Q2R (11744051 # 16777216) < 1)%R.
+Proof. exact ex_float32. Qed.
+
 (* --- harness interface (DESIGN Appendix C) ----------------------------------------------------------------- *)
 Theorem C04_check_sound : forall Y X r c o,
   C04_check (Y, X, r, c) o = true -> o = (rows Y (sampled_indices X r), rows X (sampled_indices X r)).
@@ -182,3 +224,7 @@ Print Assumptions C04_prefix_unsafe.
 Print Assumptions C04_check_sound.
 Print Assumptions C04_model_ok.
 Print Assumptions C04_outside_hyp_sound.
+Print Assumptions C04_float_product_exact.
+Print Assumptions C04_float_quotient_floor.
+Print Assumptions C04_float_final_space_size.
+Print Assumptions C04_float_quota.
